@@ -279,7 +279,7 @@ Theorem objects_are_independent : forall ifs ops j ob,
   r_finals ob = k_finals (krun ifs (r_uc ob) (r_hist ob)).
 Proof. exact objects_independent. Qed.
 
-(* ---- non-vacuity and replayable values (see .work/prover_C14_TIE.md) ---- *)
+(* ---- non-vacuity and replayable values (see notes/prover_C14_TIE.md) ---- *)
 (* the call graph of a 3-interface path at the interior interface, and at the two ends *)
 Example callees_table_interior :
   map (fun m => map (fun d => (meth_code (fst d), snd d)) (callees ex_ifs m 1)) all_meths
